@@ -71,14 +71,34 @@ def to_frags(v):
     return (("taint", v),)
 
 
+WIDENED = Opaque("#widened")  # a byte string that grew beyond what is tracked (built up in a loop this domain cannot summarise)
+MAX_FRAGS = 40
+
+
+def lost(frags):
+    """Does the command contain a piece whose value the analysis lost (unknown, or widened)?  Then nothing can be
+    concluded from what is *not* seen in it."""
+    for f in frags:
+        if f[0] == "taint" and (f[1] is TOP or f[1] == WIDENED):
+            return True
+        if f[0] == "rep" and any(isinstance(x, B) and lost(x.frags) for x in f[1]):
+            return True
+    return False
+
+
 def cat(a, b):
     fr = list(to_frags(a)) + list(to_frags(b))
+    if any(f == ("taint", WIDENED) for f in fr):
+        return B((("taint", WIDENED),))
     out = []
     for f in fr:
         if out and out[-1][0] == "lit" and f[0] == "lit":
             out[-1] = ("lit", out[-1][1] + f[1])
         else:
             out.append(f)
+    if len(out) > MAX_FRAGS:
+        # widening: the fixpoint over a loop that keeps appending must end; what is sent is then not known
+        return B((("taint", WIDENED),))
     return B(tuple(out))
 
 
@@ -110,8 +130,8 @@ class FragDomain(Domain):
         if isinstance(v, ListV):
             if v.seq:
                 return True
-            if not v.loop:
-                return False
+            # elements reach the loop set only from an append site that has executed: the list is not empty
+            return bool(v.loop)
         if isinstance(v, DictV):
             return bool(v.items)
         if isinstance(v, TupleV):
@@ -203,6 +223,32 @@ class FragDomain(Domain):
         return CompList(elems, src)
 
     def for_next(self, node, itval, state):
+        if isinstance(node, ast.For):
+            # (a comprehension over the same collections stands for one or more elements, see `rep`: a statement loop
+            # over them is entered at least once as well - the empty batch is C05's end-to-end rows' business)
+            state = state.set(("#entered", node.lineno), 1)
+        return self._for_next(node, itval, state)
+
+    def for_exhausted(self, node, itval, state):
+        key = ("#entered", node.lineno)
+        if isinstance(node, ast.For) and not state.has(key) and self._nonempty(itval):
+            return None
+        return state.drop(key) if state.has(key) else state
+
+    def _nonempty(self, itval):
+        if isinstance(itval, ListOf):
+            return self._nonempty(itval.of)
+        if isinstance(itval, ListV):
+            return bool(itval.seq or itval.loop)
+        if isinstance(itval, TupleV):
+            return bool(itval.items)
+        if isinstance(itval, DictV):
+            return bool(itval.items)
+        if isinstance(itval, CompList):
+            return bool(itval.elems)
+        return isinstance(itval, (P, SelfAttr, ItemsOf)) and not (isinstance(itval, ItemsOf) and isinstance(itval.of, DictV) and not itval.of.items)
+
+    def _for_next(self, node, itval, state):
         if isinstance(itval, ListV):
             vals = list(itval.seq) + list(itval.loop)
             return [(v, state) for v in dict.fromkeys(vals)]
@@ -216,15 +262,12 @@ class FragDomain(Domain):
                 return [(TupleV((k, v)), state) for k, v in d.items]
             return [(TupleV((ItemKey(d), ItemVal(d))), state)]
         if isinstance(itval, ListOf):
-            return self.for_next(node, itval.of, state)
+            return self._for_next(node, itval.of, state)
         if isinstance(itval, (P, SelfAttr)):
             return [(Elem(itval), state)]
         if isinstance(itval, TupleV):
             return [(v, state) for v in dict.fromkeys(itval.items)]
         return [(TOP, state)]
-
-    def for_exhausted(self, node, itval, state):
-        return state
 
     def binop(self, node, l, r, state):
         if isinstance(node.op, ast.Add):
@@ -287,6 +330,10 @@ class FragDomain(Domain):
             return ok(StrOf(args[0]))
         if name == "list" and args:
             return ok(ListOf(args[0]) if not isinstance(args[0], (ListV, ListOf)) else args[0])
+        if name in ("dict.fromkeys", "set", "frozenset", "sorted", "tuple", "reversed") and len(args) == 1 and isinstance(args[0], (ListV, ListOf, CompList, TupleV)):
+            # the same elements (possibly fewer of them, possibly in another order): for what may appear on the wire
+            # that is the same collection of patterns
+            return ok(args[0])
         if name == "isinstance":
             return ok(TOP)
         if isinstance(fval, Meth):
